@@ -123,12 +123,16 @@ def run(tier, ev):
     ev.cov["bounds"] = {"node_labels": [1, 2, 3, 4, 5], "edge_ids": [0, 2, 5, "e", "auto"], "max_order": [None, 0, 1, 2]}
     ev.assumptions += ["small-scope: labels, depth and deviation bounds as stated"]
     v = histcheck.run_specs(PROP, "c03", specs(tier), ev)
+    v = list(v) + histcheck.nan_histories(PROP, "c03", "SimplicialComplex", [oracles.undirected_incidence, oracles.simplicial_closure], ev, depth=2 if tier == "quick" else 3)
     ev.sample({"history": ["xgi.SimplicialComplex()", "H.add_simplices_from([[1, 2, 3, 4, 5]], max_order=1)",
                            "H.remove_simplex_id(0)"]})
     return v
 
 
 def replay(case):
+    if case.get("kind") == "nan-history":
+        r = histcheck.run_nan_history(case["cls"], case["ops"], [oracles.undirected_incidence, oracles.simplicial_closure])
+        return [f"{r[0]}: {r[1]}"] if r else []
     for s in specs("thorough"):
         if s.name == case["spec"]:
             return histcheck.replay_history(s, case)
